@@ -464,6 +464,16 @@ def shard_staggered(arg) -> E.Tally:
                             w.loop.settle()
                         t.nontrivial += 1
                         rep = {"staggered": [a, b, order]}
+                        # the older one is 2L+30 s old: from its second read on (the first read is the known first-read finding) it is unknown,
+                        # however live its neighbour of the same kind is
+                        last_a = {}
+                        for tag, ent, attr, got in seq:
+                            if tag == "a":
+                                last_a[(ent, attr)] = got
+                        for (ent, attr), got in last_a.items():
+                            if got is not None and (ent, attr) not in L[b][1]:
+                                t.bad(f"C14:expired-value-lingers-while-another-is-live:{attr}", f"{a} at t0, {b} at t0+1.5L (L={life}); at t0+2L+30s ({order}): the second read of {ent}.{attr} still gives {got!r}; reads: {seq}", rep)
+                                break
                         for ent, attr, want, got in reads_b:
                             if got != want:
                                 t.bad(f"C14:live-value-lost-when-another-expires:{attr}", f"{a} at t0, {b} at t0+1.5L (L={life}); at t0+2L+30s ({order}): {ent}.{attr} reads {got!r}, its message is only 0.5L+30s old and says {want!r}; reads: {seq}", rep)
